@@ -14,7 +14,7 @@ MUTS = [
  ("toint64-accepts-fractions", "interpreter/interpreter.go", "\tcase float64:\n\t\tif float64(int64(v)) == v {\n\t\t\treturn int64(v), nil\n\t\t}\n\t\treturn 0, fmt.Errorf(\"expected an integer, got float %v\", v)", "\tcase float64:\n\t\treturn int64(v), nil", ["C02","C11"]),
  ("truthy-zero", "interpreter/interpreter.go", "\t\treturn num != 0.0", "\t\treturn num == num", ["C14"]),
  ("or-returns-bool", "interpreter/interpreter.go", "\t\t\tif isTruthy(left) {\n\t\t\t\treturn left,", "\t\t\tif isTruthy(left) {\n\t\t\t\treturn true,", ["C14"]),
- ("block-uses-parent-env", "interpreter/interpreter.go", "\t\t\t_, signal := i.eval(statement, newEnv, isRepl)", "\t\t\t_, signal := i.eval(statement, env, isRepl)", ["C03"]),
+ ("block-uses-parent-env", "interpreter/interpreter.go", "\tcase *ast.BlockStmt:\n\t\tnewEnv := environment.NewEnvironmentWithParent(env)", "\tcase *ast.BlockStmt:\n\t\tnewEnv := env", ["C03"]),
  ("assign-no-parent", "environment/environment.go", "\tif e.Parent != nil {\n\t\te.Parent.Assign(name, value)\n\t\treturn\n\t}\n", "\tif e.Parent != nil && e.Parent.Parent == nil {\n\t\te.Parent.Assign(name, value)\n\t\treturn\n\t}\n", ["C03"]),
  ("call-uses-globals-as-parent", "interpreter/function.go", "functionEnv := environment.NewEnvironmentWithParent(f.Closure)", "functionEnv := environment.NewEnvironmentWithParent(i.globals)", ["C03","C04"]),
  ("params-reversed", "interpreter/function.go", "functionEnv.Define(param.Lexeme, arguments[ind])", "functionEnv.Define(param.Lexeme, arguments[len(arguments)-1-ind])", ["C04"]),
@@ -56,6 +56,9 @@ for name, f, old, new, props in MUTS:
     if old not in s:
         print(name, "PATTERN NOT FOUND"); shutil.rmtree(d); continue
     open(p, 'w', encoding='utf-8').write(s.replace(old, new, 1))
+    b0 = sh("GOPROXY=off GOSUMDB=off GOTOOLCHAIN=local go build ./...", cwd=d)
+    if b0.returncode != 0:
+        print(name, "DOES NOT COMPILE"); shutil.rmtree(d); continue
     b = sh("GOPROXY=off GOSUMDB=off GOTOOLCHAIN=local go build ./... && GOPROXY=off GOSUMDB=off GOTOOLCHAIN=local go test -json -vet=off -count=1 ./... > /tmp/mut-test.json; true", cwd=d)
     base = set(json.load(open('/root/.vp/BASELINE.json'))['stable_pass']); passed=set()
     for l in open('/tmp/mut-test.json'):
